@@ -12,6 +12,21 @@ COMMON_NOTE = ("Trusted: Coq 8.16.1 kernel (vm_compute used, native_compute not 
                "runtime semantics are modelled as executable Gallina and validated by the correspondence, not verified.")
 
 CLAIMED = {
+    "C11": dict(
+        text="Coq theorems (all lengths incl. short series, all missing patterns, every regular axis with a whole-second step D>=1, all durations>=0 and tolerances): the operational model of flat_line_test (median step, count=int(threshold)/step, strided windows, n_fill, SUSPECT/FAIL/MISSING order) equals the property's specification with k=floor(threshold/D); floor(floor(thr)/D)=floor(thr/D); window range over present values; short series never flagged. Tied by correspondence on exhaustive small series x duration x tolerance grids. Known finding F18: non-integer steps are floored (Coq refutation).",
+        design_ref="DESIGN.md §8 C11",
+        technique="Coq proof (refinement model=spec incl. floor arithmetic and window folds) + correspondence",
+    ),
+    "C13": dict(
+        text="Coq theorems: density_inversion_test model = per-point specification for ALL profiles, missing placements and threshold options (no hypothesis); both points of an inverted pair flagged; change taken in the direction of increasing depth, zero at constant depth; MISSING for an incomplete record and the next one; reversal symmetry for complete profiles (hypothesis shown necessary); pressure_increasing_test characterised for every input with the sign of the mean step proved equal to sign(last-first) by telescoping (a zero mean counts as ascending, as stated in the theorem). Tied by correspondence on exhaustive small profiles.",
+        design_ref="DESIGN.md §8 C13",
+        technique="Coq proof (refinement, reversal symmetry, telescoping sum) + correspondence",
+    ),
+    "C19": dict(
+        text="Coq theorems: cf_safe_name output uses only letters/digits/underscore and never starts with a digit (classes parsed from the regex literals re-read from the source); column naming; the code's include/exclude filter equals the property's rule; for all well-formed runs with pairwise distinct column names PandasStore.save equals the frame the property describes (rows, result/axis/data columns, all write_data/write_axes/include/exclude); compute_aggregate appends the C04 roll-up. Without distinct names the statement is refuted in Coq (known finding F14b: colliding names silently drop a result). Tied by correspondence on stores built from CollectedResults and from real PandasStream runs. Partial: regex engine and DataFrame assembly modelled.",
+        design_ref="DESIGN.md §8 C19",
+        technique="Coq proof (string-level cf_safe_name lemmas, save loop = specification walk) + translator + correspondence",
+    ),
     "C20": dict(
         text="Coq theorems: for ANY value type, every prior stack and every expression tree, evaluating after the expression's postfix code was pushed returns its ordinary arithmetic value and leaves the prior stack unread (induction on the tree, generalised over the stack) — hence independence from every history of earlier, failed or rejected evaluations; the recursive-descent model of the grammar parses both the fully and the minimally parenthesised printing of every tree to exactly that code (precedence, left associativity, unary minus); the validator accepts exactly token lists over numbers and the tables read from the source. Tied by running histories on the real never-reset exprStack (value, pushed symbols, untouched prefix) and the real QcVariableConfig; create_config is exercised on synthetic NetCDF-3 grids (two known findings F16, F17). Partial: pyparsing, float(), xarray and CubicSpline are modelled / only exercised.",
         design_ref="DESIGN.md §8 C20",
